@@ -398,7 +398,11 @@ def operand_locals(o):
 
 def defs_of(fn):
     """local -> list of (bb, idx|'t', kind, srcs(list of operands), node) for every assignment/call dest."""
+    cached = fn.d.get("_defs")
+    if cached is not None:
+        return cached
     d = defaultdict(list)
+    fn.d["_defs"] = d
     for bi, bb in enumerate(fn.bbs):
         for si, s in enumerate(bb["s"]):
             d[s["d"]["l"]].append((bi, si, s["r"]["k"], s["r"].get("o", []), s))
